@@ -216,10 +216,38 @@ func (manager *localManager) GetUserInfo(UID []byte) (uinfo UserInfo, err error)
 	return
 }
 
+// putIfAbsent stores value under key unless the bucket already has that key
+func putIfAbsent(bucket *bolt.Bucket, key string, value []byte) error {
+	if bucket.Get([]byte(key)) != nil {
+		return nil
+	}
+	return bucket.Put([]byte(key), value)
+}
+
 func (manager *localManager) WriteUserInfo(u UserInfo) (err error) {
 	err = manager.db.Update(func(tx *bolt.Tx) error {
 		bucket, err := tx.CreateBucketIfNotExists(u.UID)
 		if err != nil {
+			return err
+		}
+		// every reader decodes all six fields: a record must never lack one, so fields a new user
+		// was not given start at zero
+		if err = putIfAbsent(bucket, "SessionsCap", i32ToB(0)); err != nil {
+			return err
+		}
+		if err = putIfAbsent(bucket, "UpRate", i64ToB(0)); err != nil {
+			return err
+		}
+		if err = putIfAbsent(bucket, "DownRate", i64ToB(0)); err != nil {
+			return err
+		}
+		if err = putIfAbsent(bucket, "UpCredit", i64ToB(0)); err != nil {
+			return err
+		}
+		if err = putIfAbsent(bucket, "DownCredit", i64ToB(0)); err != nil {
+			return err
+		}
+		if err = putIfAbsent(bucket, "ExpiryTime", i64ToB(0)); err != nil {
 			return err
 		}
 		if u.SessionsCap != nil {
